@@ -624,25 +624,28 @@ add('Swap', 'C08', b_sw, lambda c, v: [v[1], v[0]] if v[2] else [v[0], v[1]], [(
 
 def b_eq(parent, cfg, mk):
     w = cfg[0]
-    A = mk('a', w); B = mk('b', w); R = mk('r', 1)
+    A = mk('a', w); B = mk('b', w); R = mk('r', cfg[1] if len(cfg) > 1 else 1)
     P().Equal(parent, 'd', A, B, R)
     return [A, B], [R]
 
 
-add('Equal', 'C08', b_eq, lambda c, v: [int(v[0] == v[1])], [(1,), (2,), (3,), (5,), (8,), (32,)], _W1_T)
+add('Equal', 'C08', b_eq, lambda c, v: [int(v[0] == v[1])], [(1,), (2,), (3,), (5,), (8,), (32,), (1, 4), (3, 2), (8, 8)], _W1_T + [(w, r) for w in [1, 2, 5] for r in [2, 3, 8]])
 
 
 def _eqc(cls_name):
     def b(parent, cfg, mk):
-        w, k = cfg
-        A = mk('a', w); R = mk('r', 1)
+        w, k = cfg[:2]
+        A = mk('a', w); R = mk('r', cfg[2] if len(cfg) > 2 else 1)
         getattr(P(), cls_name)(parent, 'd', A, k, R)
         return [A], [R]
     return b
 
 
 _WK_Q = [(w, k) for w in [1, 2, 3, 4] for k in range(1 << w)] + [(8, 0), (8, 255), (8, 0x5a), (32, 0xdeadbeef), (16, 1)]
+# a flag handed a result wire wider than one bit reads the zero-extended 0/1
+_WK_Q += [(1, 0, 4), (1, 1, 4), (2, 0, 3), (2, 3, 2), (3, 5, 8), (8, 0x5a, 4)]
 _WK_T = [(w, k) for w in [1, 2, 3, 4, 5, 6] for k in range(1 << w)] + [(8, k) for k in range(0, 256, 7)] + [(32, 0xdeadbeef), (32, 0), (64, (1 << 64) - 1), (33, 1 << 32)]
+_WK_T += [(w, k, r) for w in [1, 2, 3] for k in range(1 << w) for r in [2, 3, 8]]
 add('EqualConstant', 'C08', _eqc('EqualConstant'), lambda c, v: [int(v[0] == c[1])], _WK_Q, _WK_T)
 add('NotEqualConstant', 'C08', _eqc('NotEqualConstant'), lambda c, v: [int(v[0] != c[1])], _WK_Q, _WK_T)
 
